@@ -55,9 +55,12 @@ CFG = {
                      "independent calendar evaluation; non-trivial = distinct projects with at least one booking"),
     "C03": dict(files=["Properties/C03.lean"], oracles=("C03",),
                 knobs=[(2, Knobs(envelope="asap", p_eff=0.6, sub_slot=0.8, p_team=0.35, p_alt=0.25)),
-                       (1, Knobs(envelope="alap", p_eff=0.6, sub_slot=0.8, p_team=0.3, p_alt=0.2))],
+                       (1, Knobs(envelope="alap", p_eff=0.6, sub_slot=0.8, p_team=0.3, p_alt=0.2)),
+                       (1, Knobs(envelope="asap", p_eff=1.0, eff=["0.7"], sub_slot=0.8, p_team=0.7, p_alt=0.0, p_leave=0.5, p_limits=0.3, max_res=3)),
+                       (1, Knobs(envelope="alap", p_eff=0.0, sub_slot=0.8, p_team=0.7, p_alt=0.0, p_leave=0.5, p_tasklimits=0.3, max_res=3))],
                 nontrivial=any_booking,
-                rule="ASAP and ALAP envelope projects with efficiencies, sub-slot efforts, teams, alternatives; oracle: booked x efficiency "
+                rule="ASAP and ALAP envelope projects with efficiencies, sub-slot efforts, teams (two streams with one common efficiency, "
+                     "the hypothesis of C03.team_effort_exact), alternatives; oracle: booked x efficiency "
                      "= effort (uniform-efficiency teams), no further slot, team members booked for the same instants, one candidate set"),
     "C04": dict(files=["Properties/C04.lean"], oracles=("C04",),
                 knobs=[(2, Knobs(envelope="asap", p_dep=0.85, p_gap=0.6, p_onstart=0.25, p_container=0.5, p_prec=0.25, p_pin=0.25, aligned_only=False)),
